@@ -13,9 +13,10 @@ binary64 (subnormals included) by integer division; Python's float() is used onl
 Clauses (what = ...):
   nan-or-inf, wrong-sign, not-exact-on-short-literal (<= 15 digits after dropping leading zeros and |net exponent| <= 22),
   more-than-5-ulp, zero-literal (0eN must be +-0), nonzero-below-subnormal-range (|x| < 2^-1075 must give +-0),
-  accepts-overflow (|x| >= 2^1024 - 2^970 must be rejected), rejects-in-range (rejected although more than 5 ulp below that threshold),
+  accepts-overflow (|x| >= 2^1024 - 2^970 must be rejected; known finding F11 when at most 1.5 ulp beyond, else accepts-overflow-more-than-1ulp-beyond), rejects-in-range (rejected although more than 5 ulp below that threshold),
   malformed (any other error on a grammatical literal), value-vs-typed-mismatch (Value and f64 targets differ), wrong-integer,
-  f32-not-f64-rounded-once, f32-error-mismatch, model-mismatch, crash.
+  f32-not-f64-rounded-once (class integer-literal-converted-directly-to-f32: known finding F14), f32-float-path-not-f64-rounded-once,
+  f32-error-mismatch, model-mismatch, crash.
 """
 import re, struct, sys
 import engine, gen
@@ -23,6 +24,7 @@ from gen import hx
 from checks import register, log
 
 TOL = 5                      # the property's tolerance in units in the last place
+ACCEPT_BEYOND_MILLI_ULP = 1500   # known finding F11: values at most this far (thousandths of 2^971) beyond the overflow threshold may be accepted as MAX
 EXACT_DIGITS = 15
 EXACT_EXP = 22
 
@@ -112,6 +114,20 @@ def f64bits_to_f32_as_f64bits(b):
         r, ix = rne_bits(n2, 1 << -q2)
     assert not ix
     return s | r, False
+
+def f32bits_as_f64bits(b32, sign):
+    """the f64 bit pattern of the f32 with magnitude pattern b32 and the given sign (finite or infinite)"""
+    if b32 >= 0x7f800000:
+        return (sign << 63) | INF64
+    be, fr = b32 >> 23, b32 & 0x7fffff
+    if be == 0:
+        if fr == 0:
+            return sign << 63
+        n2, q2 = fr, -149
+    else:
+        n2, q2 = fr | (1 << 23), be - 150
+    r, _ = rne_bits(n2 << q2, 1) if q2 >= 0 else rne_bits(n2, 1 << -q2)
+    return (sign << 63) | r
 
 # ------------------------------------------------------------------ the oracle
 class Ora(object):
@@ -313,7 +329,10 @@ def _judge(ctx, cfg, inputs, oras=None, model_cache=None, model_stride=1, tol=TO
         if o.kind == 'inf':
             # (6) a value that rounds to infinity must be rejected
             x = excess_milli_ulp(d)
-            v.append(_viol('accepts-overflow', cfg, d, 'number out of range: |x| >= 2^1024-2^970 rounds to infinity', t64, bits='%016x' % bits,
+            # known finding F11: accepted although at/beyond the threshold by at most ~1 ulp (bound used: 1.5 ulp = the three half-ulp
+            # roundings of the algorithm: significand -> f64, table entry, product).  Anything further beyond is a different, hard class.
+            what = 'accepts-overflow' if (x is not None and x <= ACCEPT_BEYOND_MILLI_ULP) else 'accepts-overflow-more-than-1ulp-beyond'
+            v.append(_viol(what, cfg, d, 'number out of range: |x| >= 2^1024-2^970 rounds to infinity', t64, bits='%016x' % bits,
                            correct_bits='%016x' % cb, ulp=INF64 - mag, beyond_threshold_milli_ulp=x))
             if not quiet:
                 ctx.count('outcome:finite-for-a-value-beyond-the-overflow-threshold')
@@ -372,10 +391,15 @@ def _judge(ctx, cfg, inputs, oras=None, model_cache=None, model_stride=1, tol=TO
                     # what `integer as f32` gives (one rounding from the exact integer)
                     b32, _ = rne_bits(abs(o.ival), 1, 24, -149) if o.ival else (0, False)
                     direct = b32
-                v.append(_viol('f32-not-f64-rounded-once', cfg, d, '(f64 result %016x) as f32 = %016x' % (bits, want), t32,
-                               bits='%016x' % got, correct_bits='%016x' % want,
-                               **({'class': 'integer-literal-converted-directly-to-f32', 'f32_bits_of_integer_rounded_once': '%08x' % direct}
-                                  if a[:4] in ('ok u', 'ok i') else {'class': 'float-literal'})))
+                if a[:4] in ('ok u', 'ok i') and direct is not None and got == f32bits_as_f64bits(direct, bits >> 63):
+                    # known finding F14: an integer literal that fits u64/i64 is converted `as f32` directly (one rounding from the exact integer)
+                    v.append(_viol('f32-not-f64-rounded-once', cfg, d, '(f64 result %016x) as f32 = %016x' % (bits, want), t32,
+                                   bits='%016x' % got, correct_bits='%016x' % want,
+                                   **{'class': 'integer-literal-converted-directly-to-f32', 'f32_bits_of_integer_rounded_once': '%08x' % direct}))
+                else:
+                    # float-path literal (or an integer literal giving neither rounding): hard violation, different class
+                    v.append(_viol('f32-float-path-not-f64-rounded-once', cfg, d, '(f64 result %016x) as f32 = %016x' % (bits, want), t32,
+                                   bits='%016x' % got, correct_bits='%016x' % want, **{'class': 'float-literal' if a[:4] not in ('ok u', 'ok i') else 'integer-literal-neither-rounding'}))
         else:
             v.append(_viol('f32-error-mismatch', cfg, d, 'a float (the f64 parse succeeds: %s)' % t64, t32))
     return v
